@@ -23,37 +23,42 @@ Proof. exact read_never_unmodelled. Qed.
 Print Assumptions C12_read_never_unmodelled.
 
 (* The returned messages are those of the log reader under the same filters, limited to the first N (last N for
-   negative N) across all requested types in file order — provided the index pre-slice is not applied or the reader's
-   read-time tests drop nothing ([preslice_harmless]; its complement is the recorded finding below).  Dict output: *)
-Theorem C12_max_messages_semantics_partial : forall (e : env) (a : args),
-  a_order a = false -> a_align a = align_none -> (a_numpy a = false \/ a_keep a = true) -> preslice_harmless e a ->
+   negative N) across all requested types in file order - for every argument combination (source filters, maxima of
+   either sign, require_p1_time / require_system_time, time ranges, numpy with kept messages), no side condition on
+   the arguments.  [all_decode] is a fact about the log: every indexed message of a requested type has a payload that
+   parses (a CRC-valid message that does not parse is C04's recorded finding).  Dict output: *)
+Theorem C12_max_messages_semantics : forall (e : env) (a : args),
+  env_ok e -> all_decode e a ->
+  a_order a = false -> a_align a = align_none -> (a_numpy a = false \/ a_keep a = true) ->
   exists r, fresh e a = OutDict r /\ map fst r = types_of e a /\
             forall t d, lookup_data t r = Some d -> d_msgs d = map RFile (of_type t (spec_messages e a false)).
-Proof. exact max_messages_semantics_dict. Qed.
-Print Assumptions C12_max_messages_semantics_partial.
+Proof. exact max_messages_semantics_full_dict. Qed.
+Print Assumptions C12_max_messages_semantics.
 
 (* ... and in-order output: *)
-Theorem C12_max_messages_semantics_in_order_partial : forall (e : env) (a : args),
-  env_ok e -> a_order a = true -> preslice_harmless e a ->
+Theorem C12_max_messages_semantics_in_order : forall (e : env) (a : args),
+  env_ok e -> all_decode e a -> a_order a = true ->
   exists d, fresh e a = OutOrder d /\ d_msgs d = map RFile (spec_messages e a false) /\
             Subseq (spec_messages e a false) (e_log e).
-Proof. exact max_messages_semantics_in_order. Qed.
-Print Assumptions C12_max_messages_semantics_in_order_partial.
+Proof. exact max_messages_semantics_full_in_order. Qed.
+Print Assumptions C12_max_messages_semantics_in_order.
 
-(* The full statement (no side condition) is false of the faithful model: with a source-id filter the index is sliced
-   to N entries before the read-time source test (DESIGN 21 #16; known finding). *)
-Definition C12_max_messages_semantics_full : Prop := max_messages_semantics_full.
-Theorem C12_max_messages_semantics_refuted : ~ C12_max_messages_semantics_full.
-Proof. exact max_messages_semantics_full_refuted. Qed.
-Print Assumptions C12_max_messages_semantics_refuted.
+(* Before /repo 638779d the statement was false: with a source-id filter the index was sliced to N entries before the
+   read-time source test (DESIGN 21 #16).  read([Pose], source_ids=[0], max_messages=1) on [Pose(src 1), Pose(src 0),
+   Pose(src 0)] returned nothing; the reader's sequence limited to 1 is [Pose #1], which is what the code returns now. *)
+Theorem C12_max_messages_semantics_legacy_refuted :
+  exists e a, env_ok e /\ all_decode e a /\ a_order a = false /\ a_align a = align_none /\ a_numpy a = false /\
+    ~ (exists r, snd (read_legacy e init_state a) = OutDict r /\
+         forall t d, lookup_data t r = Some d -> d_msgs d = map RFile (of_type t (spec_messages e a false))).
+Proof. exact max_messages_semantics_legacy_refuted. Qed.
+Print Assumptions C12_max_messages_semantics_legacy_refuted.
 
-(* the witness replayed on the implementation: read([Pose], source_ids=[0], max_messages=1) on [Pose(src 1), Pose(src 0),
-   Pose(src 0)] returns nothing, the reader's sequence limited to 1 is [Pose #1] *)
-Theorem C12_max_with_sources_refuted :
-  ords_of (fresh senv sargs) POSE = Some [] /\ map m_ord (spec_messages senv sargs false) = [1]%N /\
-  diag senv sargs = (true, 1).
+Theorem C12_max_with_sources_legacy_witness :
+  ords_of (snd (read_legacy senv init_state sargs)) POSE = Some [] /\
+  map m_ord (spec_messages senv sargs false) = [1]%N /\
+  ords_of (fresh senv sargs) POSE = Some [1]%N.
 Proof. exact max_with_sources_witness. Qed.
-Print Assumptions C12_max_with_sources_refuted.
+Print Assumptions C12_max_with_sources_legacy_witness.
 
 (* In-order output is in exact file order, unconditionally and after any history: the returned messages form a
    subsequence of the log (so ordinals increase strictly whenever the log's do). *)
@@ -97,12 +102,15 @@ Qed.
 Print Assumptions C12_legacy_sequences.
 
 (* Non-vacuity.  [env_ok] holds for the environment the extracted runner uses, whatever the log, source ids and
-   reader tables are; the side condition of the semantic theorems is met by concrete calls with positive and
-   negative maxima; the same call sequences that broke the old code are transparent now. *)
+   reader tables are; the log hypothesis of the semantic theorems holds for the 10-message corpus log, with concrete
+   instances for positive and negative maxima; the same call sequences that broke the old code are transparent now. *)
 Example C12_env_ok_nonvacuous : forall log avail tab nn, env_ok (concrete_env log avail tab nn).
 Proof. exact concrete_env_ok. Qed.
 
-Example C12_side_condition_nonvacuous :
+Example C12_all_decode_nonvacuous : forall a, all_decode wenv a.
+Proof. exact all_decode_wenv. Qed.
+
+Example C12_semantics_instances :
   preslice_harmless wenv (with_max 3 (call [POSE; POSE_AUX])) /\
   preslice_harmless wenv (in_order (with_max (-2) (call [POSE; EVENT]))) /\
   map m_ord (spec_messages wenv (with_max 3 (call [POSE; POSE_AUX])) false) = [1; 2; 3]%N /\
@@ -118,9 +126,11 @@ Example C12_repaired_sequences :
 Proof. exact current_sequences_transparent. Qed.
 
 (* a source the reader's sampling did not discover is returned when no source_ids are given; requesting it by id
-   still returns nothing (the remaining known finding) *)
+   returns nothing as long as the reader intersects requests with the sampled set (regenerated from the reader's
+   source on every run; the remaining known finding) *)
 Example C12_undiscovered_source_nonvacuous :
   ords_of (fresh lenv (call [POSE])) POSE = Some [0; 1; 2]%N /\
-  ords_of (fresh lenv (with_src [0; 5]%N (call [POSE]))) POSE = Some [0; 1]%N /\
+  ords_of (fresh lenv (with_src [0; 5]%N (call [POSE]))) POSE
+    = Some (if reader_intersects_sampled_sources then [0; 1] else [0; 1; 2])%N /\
   map m_ord (spec_messages lenv (with_src [0; 5]%N (call [POSE])) true) = [0; 1; 2]%N.
 Proof. exact undiscovered_source_instances. Qed.
